@@ -622,30 +622,32 @@ def _check_pop(case):
     # parameters their covariates dictate), scored by the model itself, against the documented log-density of the samples
     if not any(lf['kind'] == 'hetero' for lf in leaves):
         with case.clause('pop_scored_density'):
-            row = np.arange(n_ids) % R
-            cvs = None if cov is None else cov[row].copy()
-            xs = call(n_ids, s['seed'], cvs)
-            case.equal(xs.shape, (n_ids, n_dim), 'shape of a sampled population', kind='shape')
-            want = 0.0
-            for li, lf in enumerate(leaves):
-                v = xs[:, lf['d0']:lf['d0'] + lf['n_dim']]
-                mu = lf['P'][row, 0, :]
-                k = lf['kind']
-                if k == 'pooled':
-                    continue
-                sg = lf['P'][row, 1, :]
-                if k in ('gauss', 'lognorm') and not lf['centered']:
-                    want += float(np.sum(sps.norm.logpdf(v)))
-                elif k == 'gauss':
-                    want += float(np.sum(sps.norm.logpdf(v, loc=mu, scale=sg)))
-                elif k == 'lognorm':
-                    want += float(np.sum(sps.lognorm.logpdf(v, s=sg, scale=np.exp(mu))))
-                else:
-                    want += float(np.sum(sps.norm.logpdf(v, loc=mu, scale=sg) - sps.norm.logcdf(mu / sg)))
-            kw = {} if cvs is None else {'covariates': cvs.copy()}
-            got = m.compute_log_likelihood(theta.copy(), xs.copy(), **kw)
-            case.close(float(got), want, rtol=1e-8, atol=1e-9,
-                       what='log-likelihood of a sampled population of %d individuals vs the documented log-density' % n_ids)
+            # (populations of 1, 2 and 3 individuals as well: no size is special)
+            for n_pop in sorted({1, 2, 3, n_ids}):
+                row = np.arange(n_pop) % R
+                cvs = None if cov is None else cov[row].copy()
+                xs = call(n_pop, stats.derive_seed(s['seed'], 'scored', n_pop), cvs)
+                case.equal(xs.shape, (n_pop, n_dim), 'shape of a sampled population', kind='shape')
+                want = 0.0
+                for li, lf in enumerate(leaves):
+                    v = xs[:, lf['d0']:lf['d0'] + lf['n_dim']]
+                    mu = lf['P'][row, 0, :]
+                    k = lf['kind']
+                    if k == 'pooled':
+                        continue
+                    sg = lf['P'][row, 1, :]
+                    if k in ('gauss', 'lognorm') and not lf['centered']:
+                        want += float(np.sum(sps.norm.logpdf(v)))
+                    elif k == 'gauss':
+                        want += float(np.sum(sps.norm.logpdf(v, loc=mu, scale=sg)))
+                    elif k == 'lognorm':
+                        want += float(np.sum(sps.lognorm.logpdf(v, s=sg, scale=np.exp(mu))))
+                    else:
+                        want += float(np.sum(sps.norm.logpdf(v, loc=mu, scale=sg) - sps.norm.logcdf(mu / sg)))
+                kw = {} if cvs is None else {'covariates': cvs.copy()}
+                got = m.compute_log_likelihood(theta.copy(), xs.copy(), **kw)
+                case.close(float(got), want, rtol=1e-8, atol=1e-9,
+                           what='log-likelihood of a sampled population of %d individuals vs the documented log-density' % n_pop)
 
     # whole-number parameters typed as integers give the same seeded samples as the same numbers as floats
     if cov is None:
